@@ -209,9 +209,17 @@ pub fn gen_dict(rng: &mut Rng, cfg: &GenCfg) -> ADict {
         if !isolated && rng.chance(1, 2) {
             cs.push(*rng.pick(&nonspace));
         }
-        ranges.insert(pos, ARange { lo: 0x20, hi: 0x20, cs: cs.clone() });
-        if rng.chance(2, 3) {
+        if rng.chance(1, 5) {
+            // SPACE is the ideographic space alone; U+0020 is an ordinary character (DEFAULT or another category)
             ranges.push(ARange { lo: 0x3000, hi: 0x3000, cs });
+            if rng.chance(1, 2) {
+                ranges.insert(pos, ARange { lo: 0x20, hi: 0x20, cs: vec![*rng.pick(&nonspace)] });
+            }
+        } else {
+            ranges.insert(pos, ARange { lo: 0x20, hi: 0x20, cs: cs.clone() });
+            if rng.chance(2, 3) {
+                ranges.push(ARange { lo: 0x3000, hi: 0x3000, cs });
+            }
         }
     }
 
@@ -303,8 +311,25 @@ pub fn gen_sentence(rng: &mut Rng, d: &ADict, max_len: usize) -> Vec<u32> {
 
 /// A re-spacing of `s`: every run of space characters replaced by a run of another
 /// non-zero length; leading/trailing runs added or removed.
+/// The characters of SPACES that THIS dictionary puts into its SPACE category (decided by the last
+/// range line covering the character).
+pub fn dict_spaces(d: &ADict) -> Vec<u32> {
+    let sp = d.space_cat();
+    SPACES.iter().cloned().filter(|&c| {
+        sp >= 0 && d.ranges.iter().rev().find(|r| r.lo <= c && c <= r.hi).map_or(false, |r| r.cs.contains(&(sp as usize)))
+    }).collect()
+}
+
 pub fn respace(rng: &mut Rng, s: &[u32]) -> Vec<u32> {
-    let is_sp = |c: u32| SPACES.contains(&c);
+    respace_with(rng, s, SPACES)
+}
+
+/// Re-spacing with the given space characters only.
+pub fn respace_with(rng: &mut Rng, s: &[u32], spaces: &[u32]) -> Vec<u32> {
+    if spaces.is_empty() {
+        return s.to_vec();
+    }
+    let is_sp = |c: u32| spaces.contains(&c);
     let mut words: Vec<Vec<u32>> = vec![];
     let mut cur = vec![];
     for &c in s {
@@ -319,7 +344,7 @@ pub fn respace(rng: &mut Rng, s: &[u32]) -> Vec<u32> {
     if !cur.is_empty() {
         words.push(cur);
     }
-    let run = |rng: &mut Rng| -> Vec<u32> { (0..1 + rng.below(3)).map(|_| *rng.pick(SPACES)).collect() };
+    let run = |rng: &mut Rng| -> Vec<u32> { (0..1 + rng.below(3)).map(|_| *rng.pick(spaces)).collect() };
     let mut out = vec![];
     if rng.chance(1, 2) {
         out.extend(run(rng));
